@@ -482,6 +482,47 @@ class Check:
         return rc
 
 
+def source_obligations(chk, names):
+    """the models of the small decision functions are REGENERATED from the current Python sources (tools/pyextract.py) and Lean
+    decides that each equals the hand model the theorems are about; -> list of unmet obligations (of `names`)"""
+    pkg = os.path.join(REPO, "src", "zope", "interface")
+    d = scratch_dir("zi-pygen-")
+    gen = os.path.join(d, "PyGen.lean")
+    p = subprocess.run([sys.executable, os.path.join(VERIF, "tools", "pyextract.py"), pkg], capture_output=True, text=True)
+    if p.returncode != 0:
+        return ["source translator failed (fails closed): " + (p.stderr or p.stdout)[-400:]]
+    open(gen, "w").write(p.stdout)
+    q = subprocess.run(["lake", "env", "lean", gen], cwd=LEAN_DIR, capture_output=True, text=True)
+    text = q.stdout + q.stderr
+    src = p.stdout.splitlines()
+    unmet = []
+    for n in names:
+        starts = [i for i, l in enumerate(src) if l.startswith("theorem %s " % n)]
+        if not starts:
+            unmet.append("obligation %s was not generated" % n)
+            continue
+        lo = starts[0] + 1
+        hi = next((i for i in range(lo, len(src)) if src[i].startswith(("theorem ", "def ", "-- "))), len(src))
+        closed = [l for l in src[max(0, lo - 2):lo] if "FAIL-CLOSED" in l]
+        errs = [int(m.group(1)) for m in re.finditer(r"PyGen\.lean:(\d+):\d+: error", text)]
+        if closed or any(lo <= e <= hi + 1 for e in errs):
+            unmet.append("the model regenerated from the source no longer equals the hand model: %s%s" % (n, (" (" + closed[0][:200] + ")") if closed else ""))
+    if q.returncode != 0 and not unmet and re.search(r": error", text):
+        unmet.append("lean failed on the regenerated definitions: " + text[-300:])
+    chk.count("source_obligations", len(names))
+    chk.count("source_obligations_discharged", len(names) - len(unmet))
+    return unmet
+
+
+def source_obligation_violation(chk, unmet, fails):
+    """regenerated obligations that no longer check: a violation without a failing input unless the oracle found one"""
+    if unmet and not fails:
+        chk.violation("obligations regenerated from the current Python sources no longer check: " + " | ".join(unmet)[:900] +
+                      "; the oracle accepted every answer of this run", dict(kind="obligation", theorem_or_correspondence=unmet), failing_input=False)
+    elif unmet:
+        chk.notes.append("unmet regenerated obligations: " + " | ".join(unmet)[:600])
+
+
 def lean_failure_violation(chk):
     """a Lean obligation that no longer checks and no failing input was found"""
     if chk.lean and not chk.lean["ok"]:
